@@ -1,11 +1,122 @@
-from jsim.envs.base import Adapter
+"""Sudoku: rules written from docs/environments/sudoku.md and the class docstring.
+
+9x9 board, -1 = empty, digits 0..8. Action [row, col, digit] writes the digit into the cell. A move
+is legal iff the cell is empty and the digit does not yet occur in the cell's row, column or 3x3 box.
+The episode ends when no legal action is left (board solved, or a dead end) or on an invalid action.
+Reward 1 on the step that completes a correctly solved board, 0 in every other case.
+"""
+from __future__ import annotations
+
+from typing import Any, Dict, List, Optional, Tuple
+
+import numpy as np
+
 from jsim.envs._mk import cfg
+from jsim.envs.base import Adapter
+
+N = 9
+FULL = (1 << N) - 1
+BUDGET = 5000000
+
+
+def _units() -> List[List[Tuple[int, int]]]:
+    rows = [[(r, c) for c in range(N)] for r in range(N)]
+    cols = [[(r, c) for r in range(N)] for c in range(N)]
+    boxes = [[(3 * br + i, 3 * bc + j) for i in range(3) for j in range(3)] for br in range(3) for bc in range(3)]
+    return rows + cols + boxes
+
+
+UNITS = _units()
+UNIT_NAMES = [f"row {i}" for i in range(N)] + [f"column {i}" for i in range(N)] + [f"box {i}" for i in range(N)]
+
+
+def duplicate(board: np.ndarray) -> Optional[str]:
+    """First unit of the board that holds a digit twice (None when there is none)."""
+    for name, unit in zip(UNIT_NAMES, UNITS):
+        seen: Dict[int, Tuple[int, int]] = {}
+        for (r, c) in unit:
+            d = int(board[r, c])
+            if d < 0:
+                continue
+            if d in seen:
+                return f"digit {d} twice in {name}: cells {seen[d]} and {(r, c)}"
+            seen[d] = (r, c)
+    return None
+
+
+def solve(board: np.ndarray) -> Optional[np.ndarray]:
+    """Deterministic backtracking (most-constrained cell first, digits ascending). A pure function of the board."""
+    g = [[int(board[r, c]) for c in range(N)] for r in range(N)]
+    rowm, colm, boxm = [0] * N, [0] * N, [0] * N
+    empties = []
+    for r in range(N):
+        for c in range(N):
+            d = g[r][c]
+            if d < 0:
+                empties.append((r, c))
+                continue
+            bit = 1 << d
+            b = 3 * (r // 3) + c // 3
+            if (rowm[r] | colm[c] | boxm[b]) & bit:
+                return None
+            rowm[r] |= bit
+            colm[c] |= bit
+            boxm[b] |= bit
+    budget = [BUDGET]
+
+    def rec(cells: List[Tuple[int, int]]) -> bool:
+        if not cells:
+            return True
+        budget[0] -= 1
+        if budget[0] < 0:
+            return False
+        best_i, best_m, best_n = -1, 0, 10
+        for i, (r, c) in enumerate(cells):
+            m = FULL & ~(rowm[r] | colm[c] | boxm[3 * (r // 3) + c // 3])
+            n = bin(m).count("1")
+            if n < best_n:
+                best_i, best_m, best_n = i, m, n
+                if n <= 1:
+                    break
+        if best_n == 0:
+            return False
+        r, c = cells[best_i]
+        rest = cells[:best_i] + cells[best_i + 1:]
+        b = 3 * (r // 3) + c // 3
+        for d in range(N):
+            bit = 1 << d
+            if not best_m & bit:
+                continue
+            rowm[r] |= bit
+            colm[c] |= bit
+            boxm[b] |= bit
+            g[r][c] = d
+            if rec(rest):
+                return True
+            rowm[r] &= ~bit
+            colm[c] &= ~bit
+            boxm[b] &= ~bit
+            g[r][c] = -1
+        return False
+
+    if not rec(empties):
+        return None
+    return np.asarray(g, dtype=np.int64)
 
 
 class A(Adapter):
     name = "Sudoku"
     mask_mode = "joint"
     terminate_on_invalid = True
+    has_invalid_effect = True
+    has_constraints = True
+    has_model = True
+    has_observer = True
+
+    def __init__(self) -> None:
+        # memo of the pure function solve(): board bytes -> solution (or None). Only a speed-up: a hit and
+        # a miss give the same answer, so runs and replays do not depend on what was solved before.
+        self._solutions: Dict[bytes, Optional[np.ndarray]] = {}
 
     def configs(self):
         return [cfg("db", True, gen="db"), cfg("dummy", True, gen="dummy"), cfg("veryeasy", gen="veryeasy")]
@@ -25,3 +136,134 @@ class A(Adapter):
 
     def horizon(self, env, c):
         return 81
+
+    # ---- rules ---------------------------------------------------------------------------------
+    @staticmethod
+    def _legal_board(board: np.ndarray) -> np.ndarray:
+        out = np.zeros((N, N, N), bool)
+        for r in range(N):
+            for c in range(N):
+                if board[r, c] != -1:
+                    continue
+                used = set(int(x) for x in board[r, :]) | set(int(x) for x in board[:, c])
+                r0, c0 = 3 * (r // 3), 3 * (c // 3)
+                used |= set(int(x) for x in board[r0:r0 + 3, c0:c0 + 3].reshape(-1))
+                for d in range(N):
+                    if d not in used:
+                        out[r, c, d] = True
+        return out
+
+    def legal(self, s: Any, env: Any) -> np.ndarray:
+        return self._legal_board(np.asarray(s.board))
+
+    def describe(self, s, env, idx):
+        r, c, d = idx
+        b = np.asarray(s.board)
+        r0, c0 = 3 * (r // 3), 3 * (c // 3)
+        return (f"cell ({r},{c}) holds {int(b[r, c])}, digit {d}; row {b[r, :].tolist()} column {b[:, c].tolist()} "
+                f"box {b[r0:r0 + 3, c0:c0 + 3].reshape(-1).tolist()}")
+
+    @staticmethod
+    def _solved(board: np.ndarray) -> bool:
+        return bool((board >= 0).all() and (board < N).all()) and duplicate(board) is None
+
+    # ---- C05 -------------------------------------------------------------------------------------
+    def invalid_effect(self, ps, action, illegal, s, ts, env, cfg):
+        # docs: "reward is 1 at the end of the episode if the board is correctly solved, and 0 in every other case";
+        # an invalid action ends the episode. The board after an invalid move is not specified and is not judged.
+        if int(ts.step_type) != 2:
+            return ("invalid_move_not_terminal", f"step_type {int(ts.step_type)} after the illegal move {list(action)}")
+        if float(ts.reward) != 0.0:
+            return ("invalid_move_reward", f"reward {float(ts.reward)} != 0 on an illegal move")
+        if float(ts.discount) != 0.0:
+            return ("invalid_move_discount", f"discount {float(ts.discount)} != 0 on the terminal step")
+        return None
+
+    # ---- C06 -------------------------------------------------------------------------------------
+    def constraints(self, hist, env, cfg):
+        board = np.asarray(hist[-1].state.board)
+        if board.shape != (N, N) or board.min() < -1 or board.max() >= N:
+            return ("board_value_out_of_range", f"board values in [{int(board.min())}, {int(board.max())}]")
+        dup = duplicate(board)
+        if dup is not None:
+            return ("duplicate_digit", dup)
+        # the board must be the reset board plus exactly the placements of the history, each on an empty cell
+        want = np.asarray(hist[0].state.board).copy()
+        for rec in hist[1:]:
+            r, c, d = (int(x) for x in rec.action)
+            if want[r, c] != -1:
+                return ("placement_on_filled_cell", f"t={rec.t}: masked-in action {[r, c, d]} targets cell ({r},{c}) that already holds {int(want[r, c])}")
+            want[r, c] = d
+        if not np.array_equal(board, want):
+            i = np.argwhere(board != want)[0]
+            return ("board_differs_from_history", f"cell {tuple(int(x) for x in i)} holds {int(board[tuple(i)])}, reset board + history gives {int(want[tuple(i)])}")
+        if len(hist) > 1 and int(hist[-1].ts.step_type) == 2 and (board >= 0).all() and not self._solved(board):
+            return ("full_board_not_a_solution", "episode ended with a full board that is not a valid solution")
+        return None
+
+    # ---- C09 -------------------------------------------------------------------------------------
+    def model_step(self, ps, action, s, ts, env, cfg):
+        r, c, d = (int(x) for x in action)
+        pb = np.asarray(ps.board)
+        was_legal = bool(self._legal_board(pb)[r, c, d])
+        if not was_legal:
+            # terminate-on-invalid: only reward / done are specified
+            if int(ts.step_type) != 2:
+                return ("termination", f"illegal move {[r, c, d]} did not end the episode")
+            if float(ts.reward) != 0.0:
+                return ("reward", f"reward {float(ts.reward)} after an illegal move, expected 0")
+            return None
+        nb = pb.copy()
+        nb[r, c] = d
+        if not np.array_equal(np.asarray(s.board), nb):
+            i = np.argwhere(np.asarray(s.board) != nb)[0]
+            return ("board", f"after placing {d} at ({r},{c}) cell {tuple(int(x) for x in i)} holds {int(np.asarray(s.board)[tuple(i)])}, expected {int(nb[tuple(i)])}")
+        done = not self._legal_board(nb).any()
+        want_reward = 1.0 if self._solved(nb) else 0.0
+        if abs(float(ts.reward) - want_reward) > 1e-6:
+            return ("reward", f"reward {float(ts.reward)} expected {want_reward} (board solved: {self._solved(nb)})")
+        if (int(ts.step_type) == 2) != done:
+            return ("termination", f"step_type {int(ts.step_type)} but the rules say done={done} (legal moves left: {int(self._legal_board(nb).sum())})")
+        return None
+
+    # ---- C11 -------------------------------------------------------------------------------------
+    def end_cause(self, ps, action, s, ts, env, cfg):
+        r, c, d = (int(x) for x in action)
+        if not self._legal_board(np.asarray(ps.board))[r, c, d]:
+            return "invalid_action"
+        b = np.asarray(s.board)
+        if self._solved(b):
+            return "solved"
+        if not self._legal_board(b).any():
+            return "dead_end"
+        return None
+
+    # ---- C12 -------------------------------------------------------------------------------------
+    def observe(self, s, obs, env, cfg):
+        if not np.array_equal(np.asarray(obs.board), np.asarray(s.board)):
+            i = np.argwhere(np.asarray(obs.board) != np.asarray(s.board))[0]
+            return ("board", f"obs.board{i.tolist()} = {int(np.asarray(obs.board)[tuple(i)])} vs state {int(np.asarray(s.board)[tuple(i)])}")
+        if not np.array_equal(np.asarray(obs.action_mask), np.asarray(s.action_mask)):
+            return ("action_mask", "obs.action_mask != state.action_mask")
+        return None
+
+    # ---- policies ----------------------------------------------------------------------------------
+    def policy_complete(self, s, env, rng, legal):
+        """Play the digits of a backtracking solution of the current board, cells in row-major order."""
+        board = np.asarray(s.board)
+        key = board.astype(np.int8).tobytes()
+        if key not in self._solutions:
+            if len(self._solutions) > 20000:
+                self._solutions.clear()
+            self._solutions[key] = solve(board)
+        sol = self._solutions[key]
+        if sol is None:
+            return None  # unsolvable from here (a dead end is coming): fall back to any legal move
+        empt = np.argwhere(board == -1)
+        if len(empt) == 0:
+            return None
+        r, c = int(empt[0][0]), int(empt[0][1])
+        a = [r, c, int(sol[r, c])]
+        if legal is not None and not legal[tuple(a)]:
+            return None
+        return a
